@@ -60,8 +60,33 @@ MORE_PATTERNS = [
 ]
 
 
+def graph_patterns(n):
+    """n patterns taken at a regular stride from the depth-1 states of the DSL value graph (self-contained ones only)"""
+    from .. import alphabet as al, dsl, explore
+    L = explore.Level
+    res = explore.run(dsl.safe_atoms(al.small_atoms()),
+                      [L(dsl.core_quantifier_ops() + dsl.group_ops() + dsl.anchor_ops(), dsl.binary_ops(), al.small_atoms(), (0, 1), 'd1'),
+                       L([], [], [], (0,), 'collect')], [], nested_tail=False)
+    exprs = sorted(d[0] for d in res['frontier'].values())
+    out = []
+    for e in exprs:
+        try:
+            t = str(build(e))
+            p = rx.parse(t)
+        except Exception:  # noqa: BLE001
+            continue
+        if p.inctx or not t:
+            continue
+        extra = [c for c in rx.alphabet([p.tree], limit=4) if c not in 'ab\n']
+        out.append((e, ''.join(extra[:1])))
+    step = max(1, len(out) // n)
+    return out[::step][:n]
+
+
 def patterns(tier):
-    return PATTERNS + (MORE_PATTERNS if tier == 'thorough' else [])
+    if tier == 'thorough':
+        return PATTERNS + MORE_PATTERNS + graph_patterns(400)
+    return PATTERNS + graph_patterns(40)
 
 
 def universe(extra, L, base='ab\n'):
@@ -203,7 +228,9 @@ def run_C11(run):
     L, depth = (6, 5) if thorough else (5, 3)
     tot = {}
     states = 0
-    for viol, cnt, ns in common.pmap(_task11, [(c, L, depth) for c in common.chunks(pats, 2)]):
+    hand = len(PATTERNS) + (len(MORE_PATTERNS) if thorough else 0)
+    tasks = [(c, L, depth) for c in common.chunks(pats[:hand], 2)] + [(c, L - 1, min(depth, 3)) for c in common.chunks(pats[hand:], 4)]
+    for viol, cnt, ns in common.pmap(_task11, tasks):
         run.add(viol)
         states += ns
         for k, v in cnt.items():
@@ -620,7 +647,7 @@ def _task14(arg):
 
 def run_C14(run):
     thorough = run.tier == 'thorough'
-    L = 5 if thorough else 4
+    L = 6 if thorough else 4
     contents = universe('é', L, base='ab\n')
     contents += ['ab\nba\n\naab\n', 'aé\nb/a\n', '@PATH@', 'a' * 12 + 'b' + 'a' * 12, '\n\n\n', 'ab ba\tab\n' * 3]
     sizes = [(0, 0), (1, 0), (0, 1), (2, 2), (5, 5), (8, 8), (1, 8), (8, 1), (40, 40)]
